@@ -285,7 +285,7 @@ class Check:
             "wall_s": round(time.time() - self.t0, 2),
             "violations": nviol,
         }
-        if self.discharged == 0:
+        if self.discharged == 0 or self.obligations == 0:
             # keep the file schema-valid when every obligation is broken (mutated tree): report under other names
             cov = ev["coverage"]
             cov["obligations_total"] = cov.pop("obligations")
